@@ -4,6 +4,7 @@ per-executor state private) and its histories - interleavings of Build / Make / 
 several threads - are replayed into the real code by hgv_iso (gate = GraphExecutorBuilder::phase_runner); every executor's
 trace must equal the reference trace of its program run alone in a fresh process."""
 import argparse
+import hashlib
 import json
 import os
 import random
@@ -101,13 +102,32 @@ def main():
                  extra=["-seed", str(hg.seed())])
     hists = hg.printed_json(sim, "ISO")
     chk.notes["model_histories"] = len(hists)
+    # the GlobalContext extension of the model (runs that follow one another, copy-back, recorder reset) and the two
+    # named faults, which TLC must reject
+    resc = hg.tlc("Isolation", "Isolation.ctx.cfg", timeout=1800)
+    if resc.violation:
+        raise hg.MachineryError("Isolation.tla (context) violates its invariants:\n" + resc.violation)
+    chk.add_tlc(resc, "Isolation-context-exhaustive")
+    chk.add_tlc(hg.expect_violation("Isolation", "Isolation.fault_key.cfg", "SchemaIsOwn", timeout=600), "fault:intern-key-drops-a-parameter")
+    chk.add_tlc(hg.expect_violation("Isolation", "Isolation.fault_erase.cfg", "RecordedIsOwn", timeout=600), "fault:recorder-keeps-earlier-buffer")
+    simc = hg.tlc("Isolation", "Isolation.ctxsim.cfg", workers=8, simulate="num=%d" % (20 if quick else 300), depth=40, timeout=600,
+                  extra=["-seed", str(hg.seed() + 1)])
+    chists = hg.printed_json(simc, "ISO")
+    chk.notes["model_context_histories"] = len(chists)
     scns, metas = [], []
     pools = [program_pool(rng) for _ in range(4)]
+
+    def toks(h):
+        return ["%s%d" % (op, arg) if op not in ("F", "G") else op for op, arg in h]
     for k, h in enumerate(hists):
         pool = pools[k % len(pools)]
         progs = (pool[:2], [pool[2], pool[0]], [pool[3], pool[4]], [pool[4], pool[3]], [pool[3], pool[1]])[k % 5]
-        tokens = ["%s%d" % (op, arg) if op != "F" else "F" for op, arg in h]
-        scns.append(iso_text("h%d" % k, progs, tokens))
+        scns.append(iso_text("h%d" % k, progs, toks(h)))
+        metas.append(progs)
+    for k, h in enumerate(chists):
+        pool = pools[k % len(pools)]
+        progs = ([pool[3], pool[4]], [pool[4], pool[3]], [pool[5], pool[3]])[k % 3]     # model programs 0 / 1 are type neighbours
+        scns.append(iso_text("c%d" % k, progs, toks(h)))
         metas.append(progs)
     # free-running: many executors at once, builders reused, no gates
     for k in range(25 if quick else 400):
@@ -178,6 +198,42 @@ def main():
                               % (hdr["x"], hdr["p"], hdr["b"], k, want[k] if k < len(want) else "<end>", got[k] if k < len(got) else "<end>"),
                               "# C07\n" + scn + "\n")
                 break
+    # first executors of MANY fresh builders, one process: every block compiles a structurally new graph (new entries in the
+    # process-wide runtime registries) while 8 threads make their executors at the same instant
+    nproc, nblocks = (6, 60) if quick else (60, 120)
+
+    def race_text(seed):
+        r = random.Random(seed)
+        blocks = []
+        for k in range(nblocks):
+            n = r.randint(2, 9)
+            lines = ["iso race%d" % k, "prog", "scn r%d" % k, "opt start=1 end=5", "graph root", "n 1 src script=1:1;2:2"]
+            for i in range(2, n + 1):
+                lines.append("n %d %s in=%d" % (i, r.choice(["pass", "acc", "count", "add"]), r.randint(1, i - 1)))
+            lines += ["n %d rec in=%d" % (n + 1, n), "endgraph", "endprog", "hist B0 " + " ".join(["Y0"] * 8) + " F", "runiso"]
+            blocks.append("\n".join(lines))
+        return "\n".join(blocks) + "\n"
+
+    def race_one(seed):
+        text = race_text(seed)
+        try:
+            r = subprocess.run([os.path.join(hg.BUILD, "hgv_iso")], input=text, capture_output=True, text=True, timeout=600)
+        except subprocess.TimeoutExpired:
+            return text, "the process hung"
+        fails = [l for l in r.stdout.splitlines() if '"harnessfail"' in l]
+        done = sum(1 for l in r.stdout.splitlines() if l.startswith('{"e":"done"'))
+        if r.returncode != 0:
+            return text, "the process died with status %s after %d of %d groups" % (r.returncode, done, nblocks)
+        if fails:
+            return text, "make_executor / run failed: %s" % fails[0][:200]
+        return text, None
+    with ThreadPoolExecutor(max_workers=4) as ex:
+        for text, bad in ex.map(race_one, [rng.randrange(1 << 30) for _ in range(nproc)]):
+            chk.count({"race": hashlib.sha1(text.encode()).hexdigest()})
+            nexec += 8 * nblocks
+            if bad:
+                chk.violation("concurrent-first-executors", "8 executors made at the same instant from a freshly wired builder, %d fresh builders "
+                              "in one process: %s (a race: the replay may need several attempts)" % (nblocks, bad), "# C07\n" + text)
     chk.notes["executors_compared_with_reference"] = nexec
     chk.coverage["traces_validated_against_impl"] += nexec
     chk.sample({"scenario": scns[0].splitlines()})
